@@ -40,6 +40,11 @@ class Session:
         """-> (unknown violations); known ones are counted and dropped."""
         unknown = []
         for v in violations:
+            # an exception raised from inside a closed-form field routine (field_BH_*.py, special_*.py) is the subject
+            # of C15 ("every finite input yields a finite field", no exception) and, for late failures after an
+            # accepted assignment, of C17; the other checks count it and move on instead of reporting it as theirs
+            if self.left_to_c15(v):
+                continue
             hit = None
             for e in self.known:
                 if core.sig_matches(e["match"], v.sig):
@@ -53,6 +58,13 @@ class Session:
                 continue
             unknown.append(v)
         return unknown
+
+    def left_to_c15(self, v):
+        if (self.prop.ID not in ("C15", "C17") and isinstance(v.sig, dict) and "exc" in v.sig
+                and str(v.sig.get("frame", "")).startswith(("special_", "field_BH_"))):
+            self.ctx.excluded_known["field_routine_exception_left_to_C15"] += 1
+            return True
+        return False
 
     def record_failure(self, case, unknown):
         v = unknown[0]
@@ -268,6 +280,8 @@ def run_replay(sess: Session, files):
         vs = sess.run_guarded(case)
         entry = {"file": path, "violations": []}
         for v in vs:
+            if sess.left_to_c15(v):
+                continue
             known_id = None
             for e in sess.known:
                 if core.sig_matches(e["match"], v.sig):
